@@ -22,7 +22,9 @@ REST_NORET = "Header line.\n\n:param a: desc a\n:type a: ```int```\n\nFooterpros
 REST_DEFAULT_NORET = "Header line.\n\n:param a: desc a. Defaults to 5\n:type a: ```int```\n\nFooterprose notes."
 GOOGLE_FOOT = "Header line.\n\nArgs:\n  a (int): desc a\n\nFooterprose notes.\n"
 NUMPY_FOOT = "Header line.\n\nParameters\n----------\na : int\n    desc a\n\nFooterprose notes.\n"
-EXTRA_SKELETONS = {"rest_noret": REST_NORET, "rest_default_noret": REST_DEFAULT_NORET, "google_foot": GOOGLE_FOOT, "numpy_foot": NUMPY_FOOT}
+GOOGLE_STAR = "H.\n\nArgs:\n  *args: the args\n  **options: the opts\n"
+NUMPY_STAR = "H.\n\nParameters\n----------\n**options : dict\n    the opts\n"
+EXTRA_SKELETONS = {"google_star": GOOGLE_STAR, "numpy_star": NUMPY_STAR, "rest_noret": REST_NORET, "rest_default_noret": REST_DEFAULT_NORET, "google_foot": GOOGLE_FOOT, "numpy_foot": NUMPY_FOOT}
 EDGE_SKELETONS = {  # section headers without bodies, blank line right under a NumPy underline, truncated tokens
     "numpy_empty_section": "Header.\n\nParameters\n----------\n",
     "numpy_blank_after_underline": "Header.\n\nParameters\n----------\n\na : int\n    desc a\n",
